@@ -729,7 +729,7 @@ fn random_run(rng: &mut Rng, prof: &Profile, sink: &mut Sink<QuantEngine>) {
                 let v0 = note / 12.0 + SEMI * 0.5;
                 if rng.chance(0.4) {
                     // a steady input for a very long time: 2^16 / 2^20 conversions, the last stretch in the hysteresis margin
-                    let p_million = if prof.tier == Tier::Thorough { 0.1 } else { 0.003 };
+                    let p_million = if prof.tier == Tier::Thorough { 0.01 } else { 0.003 };
                     let big = rng.chance(0.2);
                     let n = if rng.chance(p_million) { (1u64 << 20) + rng.below(64) } else { rng.near_pow2(big) };
                     t.push(Ev::Convert((v0 as f32).to_bits()));
